@@ -85,3 +85,36 @@ func vh_C01_L4_tracking_window_capacity() {
 	vobserve("words", uint64(len(q.tsnBitmask)))
 	vcover("end")
 }
+
+// C01.L8: ordered delivery when an earlier message is missing entirely. Message k+1 arrives
+// complete while nothing of message k has arrived (DATA by SSN, I-DATA by MID, symbolic
+// bases): nothing is readable and a read attempt returns nothing; once message k arrives
+// the two are read in order.
+func vh_C01_L8_later_message_waits_for_missing_earlier_one() {
+	iData := vPick(2) == 1
+	r := newReassemblyQueue(3, 0)
+	ssn, mid, base := nondetU16(), nondetU32(), nondetU32()
+	r.nextSSN, r.nextMID = ssn, mid
+	nf := 1 + vPick(2)
+	m1 := vMakeMsg(3, iData, false, ssn, mid, base, 1, PayloadTypeWebRTCBinary)
+	m2 := vMakeMsg(3, iData, false, ssn+1, mid+1, base+1, nf, PayloadTypeWebRTCString)
+	for _, c := range m2.chunks {
+		r.push(c)
+	}
+	vassert(!r.isReadable(), "a complete later message is not readable while the earlier one is missing")
+	buf := make([]byte, 8)
+	n, _, err := r.read(buf)
+	vassert(err != nil && n == 0, "and a read attempt returns nothing (never the later message first)")
+	vassert(r.getNumBytes() == nf, "the later message stays queued")
+	r.push(m1.chunks[0])
+	vassert(r.isReadable(), "readable once the earlier message has arrived")
+	n, ppi, err := r.read(buf)
+	vassert(err == nil && n == 1 && buf[0] == m1.bytes[0] && ppi == PayloadTypeWebRTCBinary, "the earlier message is read first")
+	n, ppi, err = r.read(buf)
+	vassert(err == nil && n == nf && vBytesEq(buf[:n], m2.bytes) && ppi == PayloadTypeWebRTCString, "then the later one")
+	vcover("end")
+}
+
+// C01.L9: the retransmission of the earliest outstanding chunk is never held back by a small
+// non-zero peer window (= C02.L3 / C06.L2, whose peer window is symbolic).
+func vh_C01_L9_earliest_chunk_always_retransmitted() { vh_C06_L2_abandoned_never_resent() }
